@@ -224,18 +224,26 @@ transport.maxPoolCount = 2
 	}
 	defer e.be.Close()
 
+	// loginFailExit only speaks about the FIRST login (which succeeds here: frps is up before frpc starts); in half of
+	// the cases it is left at its default (true): it must not matter for any later re-login
+	defaultFailExit := rng.Intn(2) == 0
+	c.Data["login_fail_exit_default"] = defaultFailExit
+	failExitLine := "loginFailExit = false\n"
+	if defaultFailExit {
+		failExitLine = ""
+		run.Count("cases_with_default_loginFailExit", 1)
+	}
 	e.header = fmt.Sprintf(`
 serverAddr = "127.0.0.1"
 serverPort = %d
 user = "%s"
 auth.token = "%s"
-%sloginFailExit = false
-transport.tls.enable = false
+%s%stransport.tls.enable = false
 transport.tcpMux = %v
 transport.poolCount = %d
 transport.heartbeatInterval = %d
 transport.heartbeatTimeout = %d
-`, ports[1], e.user, token, scopeLine, e.mux, pool, e.pair.I, e.pair.T)
+`, ports[1], e.user, token, scopeLine, failExitLine, e.mux, pool, e.pair.I, e.pair.T)
 	nTCP := 1
 	if e.n > 1 {
 		nTCP = 2
@@ -392,7 +400,12 @@ func (e *cEnv) healthy() (bool, string) {
 
 func (e *cEnv) awaitRecovery(kind string, heal int64) bool {
 	var why string
+	gaveUp := false
 	ok := waitUntil(time.Duration(heal-h.Now())+recoveryGrace, func() bool {
+		if clientGone(e.cli) {
+			gaveUp = true
+			return true
+		}
 		if kind != "start" && !e.relogged() {
 			why = "no login since the fault"
 			return false
@@ -402,6 +415,11 @@ func (e *cEnv) awaitRecovery(kind string, heal int64) bool {
 		return good
 	})
 	now := h.Now()
+	if gaveUp {
+		e.c.Violation("client-gave-up-after-failed-relogin", "mux=%v, %d proxies, loginFailExit left at its default=%v, fault %s: the frpc service has ended (Service.Run returned) %.1f s after the server was reachable again, although its first login had succeeded: nothing will ever reconnect",
+			e.mux, e.n, e.c.Data["login_fail_exit_default"], kind, secs(now-heal))
+		return false
+	}
 	if !ok {
 		if e.child != nil && e.child.Exited() {
 			run.Inconclusive("C: child frps exited")
